@@ -95,7 +95,7 @@ for (mod, f, what, table, ref, props) in GROUPS:
     w('')
 CG = [
     ('descriptor', 'serde_amqp/src/descriptor.rs', V, 'Field', 'a descriptor is a symbol (sym8 / sym32) or a ulong (ulong / smallulong / ulong0), AMQP 1.0 part 1, 1.5',
-        [('Name', [0xa3, 0xb3]), ('Code', [0x80, 0x53, 0x44])], None, 'C03 C05'),
+        [('Name', [0xa3, 0xb3]), ('Code', [0x80, 0x53, 0x44])], None, 'C03 C05 C12'),
     ('annotation_key', 'fe2o3-amqp-types/src/messaging/format/annotations.rs', V, 'Field', 'an annotation key is a symbol or a ulong (AMQP 1.0 part 3, 3.2.10), in every width',
         [('Symbol', [0xa3, 0xb3]), ('Ulong', [0x80, 0x53, 0x44])], None, 'C03 C05'),
     ('message_id', 'fe2o3-amqp-types/src/messaging/format/message_id.rs', V, 'Field', 'a message-id is a ulong, a uuid, a binary or a string (AMQP 1.0 part 3, 3.2.11-3.2.14), in every width',
